@@ -8,7 +8,7 @@ from ..api import Part, Res, V
 PROPERTY_ID = "C08"
 RULE = (
     "Generated record pairs (x, x+p): p a polynomial in the sample index of degree <= order (invariance) or order+1 "
-    "(sensitivity; degree 0 for order -1) with amplitude up to 1e6 x the record scale, added to channel 1, 2 or both; "
+    "(sensitivity; degree 0 for order -1) with amplitude up to 1e12 x the record scale, added to channel 1, 2 or both; "
     "full analyses over all schedulers (short L included) and single-bin requests; auto and cross; numba, numpy and "
     "CUDA (simulator child). Oracle: (i) XX, YY, XY, M2 of the two analyses differ by <= 4x the rounding budget at the "
     "scale of the trended record; (ii) the trended analysis equals the direct-DFT reference with an order-p "
@@ -32,7 +32,7 @@ def trend(draw, order, kind):
         deg = order + 1 if order >= 0 else draw(st.integers(0, 2))
     coefs = [draw(st.floats(-1.0, 1.0)) for _ in range(deg + 1)]
     coefs[-1] = draw(st.sampled_from([1.0, -1.0, 0.5]))     # the leading term is really there
-    return {"deg": deg, "coefs": coefs, "amp": draw(st.sampled_from([1.0, 10.0, 1e3, 1e6])),
+    return {"deg": deg, "coefs": coefs, "amp": draw(st.sampled_from([1.0, 10.0, 1e3, 1e6, 1e6, 1e9, 1e12])),
             "chan": draw(st.sampled_from(["x", "y", "both"]))}
 
 
